@@ -431,3 +431,96 @@ func KeyedStr() *TextSet {
 		return NewTextSet(out)
 	})
 }
+
+// Large returns a few documents beyond every small-scope bound (arrays of 9..130 elements,
+// objects of 9..40 keys - Go maps change their iteration behaviour above 8 entries -, nesting
+// depth 12 and 25, strings of 1000 characters, 20 keyed members) and simple variants of each,
+// so that a size threshold or "fast path for big inputs" cannot hide behind the small universes.
+func Large() *TextSet {
+	return memoize("Large", func() *TextSet {
+		var out []V
+		seq := func(n int) []interface{} {
+			a := make([]interface{}, n)
+			for i := range a {
+				a[i] = float64(i)
+			}
+			return a
+		}
+		for _, n := range []int{9, 17, 33, 65, 130} {
+			a := seq(n)
+			out = append(out, a)
+			b := append([]interface{}{}, a...)
+			b[n/2] = "changed"
+			out = append(out, b)
+			out = append(out, append(append([]interface{}{}, a[:n/3]...), a[n/3+1:]...))
+			out = append(out, append([]interface{}{"front"}, a...), append(append([]interface{}{}, a...), "back"))
+			d := make([]interface{}, n)
+			for i := range d {
+				d[i] = float64(i % 3)
+			}
+			out = append(out, d)
+			if n <= 17 {
+				r := make([]interface{}, n)
+				for i := range r {
+					r[i] = a[n-1-i]
+				}
+				out = append(out, r)
+			}
+		}
+		for _, n := range []int{9, 17, 40} {
+			o := map[string]interface{}{}
+			for i := 0; i < n; i++ {
+				o[fmt.Sprintf("k%02d", i)] = float64(i)
+			}
+			out = append(out, o)
+			for _, mut := range []string{"change", "remove", "add", "nest"} {
+				c := map[string]interface{}{}
+				for k, v := range o {
+					c[k] = v
+				}
+				switch mut {
+				case "change":
+					c["k03"] = "changed"
+					c[fmt.Sprintf("k%02d", n-1)] = []interface{}{1.0, 2.0}
+				case "remove":
+					delete(c, "k00")
+					delete(c, "k05")
+				case "add":
+					c["zz"] = 1.0
+					c["aa"] = map[string]interface{}{"x": 1.0}
+				case "nest":
+					c["k01"] = seq(9)
+				}
+				out = append(out, c)
+			}
+		}
+		for _, depth := range []int{12, 25} {
+			for _, leaf := range []V{1.0, 2.0, []interface{}{1.0, 2.0}} {
+				var v V = leaf
+				for i := 0; i < depth; i++ {
+					if i%2 == 0 {
+						v = map[string]interface{}{"d": v}
+					} else {
+						v = []interface{}{v}
+					}
+				}
+				out = append(out, v)
+			}
+		}
+		long := strings.Repeat("x", 1000)
+		out = append(out, long, long[:999]+"y", []interface{}{long, "s"}, map[string]interface{}{"s": long[:500]})
+		members := func(change int) []interface{} {
+			m := make([]interface{}, 20)
+			for i := range m {
+				v := float64(i)
+				if i == change {
+					v = -1
+				}
+				m[i] = map[string]interface{}{"id": float64(i), "t": "x", "v": v}
+			}
+			return m
+		}
+		out = append(out, members(-1), members(7), members(19), members(-1)[:19], append([]interface{}{members(-1)[19]}, members(-1)[:19]...))
+		return NewTextSet(out)
+	})
+}
